@@ -225,7 +225,7 @@ pub fn silent_rows(f: &Facts) -> (Vec<(u32, u32)>, Vec<(u8, u32, String, u32)>) 
 }
 
 /// A spelling of the four files that is a function of the facts: half of the fact sets are written plainly, the
-/// others with variations that leave the described ontology unchanged (tag order inside stanzas, a term's is_a lines spread over two stanzas, other tags
+/// others with variations that leave the described ontology unchanged (position of the data-version line in the header, tag order inside stanzas, a term's is_a lines spread over two stanzas, other tags
 /// before / after the name and between is_a lines, trailing modifiers on is_a lines, explicit `is_obsolete: false`,
 /// [Typedef] stanzas, extra columns, no newline after the last line, DECIPHER rows and negated rows in phenotype.hpoa).
 pub fn derived_noise(f: &Facts) -> JaxNoise {
@@ -246,6 +246,7 @@ pub fn derived_noise(f: &Facts) -> JaxNoise {
     JaxNoise {
         tag_order: b(8) % 4,
         split_stanzas: b(56) % 4 == 0,
+        header_order: b(57) % 3,
         extra_tags: if b(16) % 2 == 0 { vec![] } else { vec![b(20), b(28), b(36)] },
         isa_modifier: b(44) % 2 == 0,
         explicit_false: b(45) % 2 == 0,
@@ -275,6 +276,7 @@ pub fn noise_strategy() -> impl Strategy<Value = JaxNoise> {
             long_lines: extra_tags.len() == 5 || (extra_tags.len() == 3 && extra_tags[0] % 2 == 0),
             tag_order: if extra_tags.len() % 3 == 1 { 1 + extra_tags[0] % 3 } else { 0 },
             split_stanzas: extra_tags.len() == 4 || (extra_tags.len() == 2 && extra_tags[1] % 2 == 0),
+            header_order: if extra_tags.is_empty() { 0 } else { extra_tags[extra_tags.len() - 1] % 3 },
             gene_header,
             extra_tags,
             typedefs,
